@@ -202,6 +202,11 @@ def o_history(case):
             got = tuple(bc.tuple_for_index(i))
             if got != want:
                 bad("lookup:tuple_for_index", "after %s tuple_for_index(%d) = %r, expected %r" % (after, i, got, want))
+            # counted from the tip (the form last_block_hash itself uses): -1 is the tip, -len the first block
+            got = tuple(bc.tuple_for_index(i - len(chain)))
+            if got != want or bc.hash_for_index(i - len(chain)) != h:
+                bad("lookup:tuple_for_index:negative", "after %s tuple_for_index(%d) = %r, expected %r (chain of %d, %d locked)" % (
+                    after, i - len(chain), got, want, len(chain), len(model.locked)))
         last = bc.last_block_hash()
         if last != (chain[-1] if chain else anchor0):
             bad("lookup:last_block_hash", "after %s last_block_hash() = %s, chain %s" % (after, nm(last), [nm(x) for x in chain]))
